@@ -380,13 +380,14 @@ class Family:
         self.stats = {"checks": 0, "kernel_calls": 0}
 
     def add_run(self, sid, cfg, kind, cmds, io="file", base=None, intl=None, timeout=20, chunks=None,
-                det=True, binary=None, env=None, extra_args=()):
-        text = G.render_script(cmds, self.tb)
-        res = run_opensmt(text, io=io, timeout=timeout, chunks=chunks, binary=binary, env=env, extra_args=extra_args)
+                det=True, binary=None, env=None, extra_args=(), text=None, cwd=None, wellformed=True):
+        if text is None:
+            text = G.render_script(cmds, self.tb)
+        res = run_opensmt(text, io=io, timeout=timeout, chunks=chunks, binary=binary, env=env, extra_args=extra_args, cwd=cwd)
         if intl is None:
             intl = self.g.num == INT
         run = {"sid": sid, "cfg": cfg, "kind": kind, "io": io, "base": base or sid, "intl": bool(intl),
-               "cmds": cmds, "res": res, "text": text, "det": det}
+               "cmds": cmds, "res": res, "text": text, "det": det, "wellformed": wellformed}
         self.runs.append(run)
         return run
 
@@ -409,6 +410,14 @@ class Family:
         segs, done, tail = split_output(res["out"], len(cmds))
         evs = [{"e": "Run", "sid": run["sid"], "cfg": run["cfg"], "kind": run["kind"], "io": run["io"],
                 "base": run["base"], "intl": run["intl"]}]
+        if not run.get("wellformed", True):
+            out = res["out"]
+            diag = ("(error" in out) or ("syntax error" in out.lower()) or ("Syntax error" in out)
+            evs.append({"e": "Cmd", "c": "bad", "r": "error" if diag else "ok", "ci": 0, "must": "reject", "i": 1})
+            evs.append({"e": "Exit", "status": res["status"], "sig": res["sig"], "san": bool(res["san"]), "to": bool(res["to"]),
+                        "pending": bool(run.get("has_check", False)), "outh": outhash(out), "nerr": 1 if diag else 0,
+                        "synerr": True, "det": False})
+            return evs
         mir = Mirror()
         sig = Signature()
         sig.sorts = set(g.sig.sorts)
